@@ -112,7 +112,9 @@ def specRun (rc : Bool) (split : Option (List Bytes)) (env osenv : Env) (code : 
           else s!"FAIL exit status {code} reported as {r.report}"
 
 def step (_ : Unit) (op impl : String) : Unit × DrvOut :=
-  let rc := MtxVerif.Gen.C21.waitReturnsExitCode
+  -- `none` = the extractor did not recognise the Wait closure: no prediction for runs ("-"), spec only
+  let rc? := MtxVerif.Gen.C21.waitReturnsExitCode?
+  let rc := rc?.getD true
   match words op with
   | ["reset"] => ((), { model := "ok" })
   | ["exp", w, e, o] =>
@@ -133,7 +135,7 @@ def step (_ : Unit) (op impl : String) : Unit × DrvOut :=
       -- the harness prepends the helper program (a NUL-free, `$`-free path) to the template
       let split' := split.map (fun ws => ([] : Bytes) :: ws)
       let m := runCmd rc split' true env osenv code
-      ((), { model := fmtOutcome env osenv m, spec := specRun rc split' env osenv code impl })
+      ((), { model := if rc?.isSome then fmtOutcome env osenv m else "-", spec := specRun rc split' env osenv code impl })
     | _, _, _, _ => ((), { model := "bad-op" })
   | ["raw", _cmd, sp, e, o] =>
     match parseSplit sp, parseEnv e, parseEnv o with
